@@ -87,6 +87,21 @@ func hostConv(v interface{}, typ string) (interface{}, bool) {
 			return f, true
 		}
 		return nil, false
+	case "interface":
+		// the element type of map[string]interface{...}: any value
+		return v, true
+	}
+	// element types that are themselves slices or maps (gen_ctlvals.go): a list / a map as it is (the
+	// generators give elements of the matching type only)
+	if strings.HasPrefix(typ, "[]") {
+		if _, ok := v.(*List); ok {
+			return v, true
+		}
+	}
+	if strings.HasPrefix(typ, "map[") {
+		if _, ok := v.(*Map); ok {
+			return v, true
+		}
 	}
 	return nil, false
 }
@@ -283,6 +298,8 @@ func Run(stmts []*N, cfg Cfg, budget int) (out *Outcome) {
 	top.define("hnilptrs", &List{E: []interface{}{np, np, np}})
 	// hst is a pointer to a Go struct {F int64; S string; A [2]int64}: fields read and assigned by name
 	top.define("hst", &Map{K: []interface{}{"F", "S", "A"}, V: []interface{}{int64(7), "g", &List{E: []interface{}{int64(1), int64(2)}}}})
+	// hbox is a pointer to a Go struct {Row []int64; Items []string; M map[string]int64} (gen_ctlvals.go)
+	top.define("hbox", &Map{K: []interface{}{"Row", "Items", "M"}, V: []interface{}{&List{E: []interface{}{int64(1), int64(2)}}, &List{E: []interface{}{"a", "b"}}, &Map{K: []interface{}{"a"}, V: []interface{}{int64(1)}}}})
 	out.Top = top
 	defer func() {
 		if r := recover(); r != nil {
@@ -1539,6 +1556,10 @@ func (m *Model) eval(e *N, sc *Scope) (interface{}, ctl) {
 		var zero interface{} = int64(0)
 		if e.S == "string" {
 			zero = ""
+		}
+		if strings.HasPrefix(e.S, "[]") || strings.HasPrefix(e.S, "map[") {
+			// a slice of slices / of maps: every element is a nil slice / map of that type
+			zero = &TypedNil{T: e.S}
 		}
 		l := &List{}
 		for i := int64(0); i < e.I; i++ {
